@@ -39,9 +39,13 @@ Print Assumptions C12_field_forms.
 (** Exactly one terminal message with the request's id (JSON type included),
     for every complete life of a request in the property's environment
     ([sched_ok]): any interleaving of the POST result, the answer on the
-    stream, the timer, the sender's wake-up and unrelated traffic. *)
+    stream, the timer, the sender's wake-up and unrelated traffic - which
+    since ecb7629 includes requests and notifications of the server's own that
+    bear the request's id ([answer_key] in Spec/C12.v), hence the flag
+    [c_answers_only]: the member without it loses the answer on such a life
+    (C12_server_request_witness). *)
 Theorem C12_one_terminal_per_request : forall c rid evs late,
-  c_keep_id c = true -> c_other_terminal c = true ->
+  c_keep_id c = true -> c_other_terminal c = true -> c_answers_only c = true ->
   sched_ok rid evs = true ->
   count_terminals rid (run c (SS SIdle late) (ESend (CReq rid) :: evs)) = 1%nat /\
   s_task (final c (SS SIdle late) (ESend (CReq rid) :: evs)) = SIdle.
@@ -55,7 +59,7 @@ Print Assumptions C12_one_terminal_per_request.
     the request starts.  Needs the patch that remembers abandoned requests;
     refuted for every member without it. *)
 Theorem C12_one_terminal_full : forall c,
-  c_keep_id c = true -> c_other_terminal c = true -> c_drop_late c = true ->
+  c_keep_id c = true -> c_other_terminal c = true -> c_drop_late c = true -> c_answers_only c = true ->
   forall rid evs late, sched_ok_late rid evs = true ->
   count_terminals rid (run c (SS SIdle late) (ESend (CReq rid) :: evs)) = 1%nat /\
   s_task (final c (SS SIdle late) (ESend (CReq rid) :: evs)) = SIdle.
@@ -123,6 +127,7 @@ Print Assumptions C12_in_order_once.
     that delivers the late answer. *)
 Theorem C12_in_order_full : forall c,
   c_keep_id c = true -> c_other_terminal c = true -> c_drop_late c = true -> c_route_in_stream c = true ->
+  c_answers_only c = true ->
   (forall rid evs, sched_ok_late rid evs = true ->
      stream_part (run c sinit (ESend (CReq rid) :: evs)) = stream_due rid late_init evs) /\
   (forall rid evs, sched_ok rid evs = true ->
@@ -235,6 +240,15 @@ Theorem C12_server_request_is_not_an_answer : forall c st m,
 Proof. exact server_call_untouched. Qed.
 Print Assumptions C12_server_request_is_not_an_answer.
 
+(** The property's environment really contains such lives: a request of the
+    server's own with ANY id is unrelated traffic ([noise]), so every mode of
+    C12_modes_accepted may be surrounded by pings that bear the request's id -
+    and C12_one_terminal_per_request / C12_in_order_full speak about them. *)
+Theorem C12_server_calls_are_unrelated_traffic : forall rid m,
+  kind_call (m_kind m) = true -> noise rid [ESse (Some m)].
+Proof. exact server_call_is_noise. Qed.
+Print Assumptions C12_server_calls_are_unrelated_traffic.
+
 Example C12_server_request_witness :
   let ping := Msg (Some w_rid) KReq 5 in
   let evs := [ESend (CReq w_rid); ESse (Some ping); EPost (PStatus 200 (BMsg w_ans))] in
@@ -242,6 +256,8 @@ Example C12_server_request_witness :
   (map snd (run cfg_before_answers_only sinit evs) = [ping]
    /\ count_terminals w_rid (run cfg_before_answers_only sinit evs) = 0%nat) /\
   (* after it: both are delivered, in order, one terminal message *)
-  (map snd (run cfg_patched sinit evs) = [ping; w_ans] /\ count_terminals w_rid (run cfg_patched sinit evs) = 1%nat).
+  (map snd (run cfg_patched sinit evs) = [ping; w_ans] /\ count_terminals w_rid (run cfg_patched sinit evs) = 1%nat) /\
+  (* and that life is inside the property's environment *)
+  sched_ok w_rid [ESse (Some ping); EPost (PStatus 200 (BMsg w_ans))] = true.
 Proof. cbv zeta. repeat split; vm_compute; reflexivity. Qed.
 
